@@ -53,13 +53,17 @@ func WriteTypes(fw *common.MatlabFileWriter, ns *dsl.Namespace, st dsl.SymbolTab
 
 func writeUnionClasses(fw *common.MatlabFileWriter, td dsl.TypeDefinition, unionGenerated map[string]bool) error {
 	var writeError error
+	// only the outermost union of a named type is the named type; a union nested in one of its cases is a class of its own
+	isOutermostUnion := true
 	dsl.Visit(td, func(self dsl.Visitor, node dsl.Node) {
 		switch node := node.(type) {
 		case *dsl.GeneralizedType:
 			if node.Cases.IsUnion() {
+				isNamedTypeUnion := isOutermostUnion
+				isOutermostUnion = false
 				unionClassName := common.UnionClassName(node)
 				if !unionGenerated[unionClassName] {
-					if _, isNamedType := td.(*dsl.NamedType); isNamedType {
+					if _, isNamedType := td.(*dsl.NamedType); isNamedType && isNamedTypeUnion {
 						// This is a named type defining a union, so we will use the named type's name instead
 						unionClassName = td.GetDefinitionMeta().Name
 					}
